@@ -311,7 +311,10 @@ package parquet
 //@   ensures err == nil ==> dyn(res0) == typeid("*bytes.Buffer") && payload(res0) != 0 && freshsince(cast("*bytes.Buffer", res0))
 //@   ensures[C10] err == nil ==> (rfault ==> old(rfault))
 //@   ensures[C08] err == nil ==> srcPos >= old(srcPos) + pg.Size
+// every page contributes exactly its num_values levels to each level list
+//@   ensures[C04] err == nil && f.repeated ==> #f.Reps - old(#f.Reps) == #f.Defs - old(#f.Defs)
 //@ loop (*OptionalField).DoRead#1
+//@   invariant[C04] f.repeated ==> #f.Reps - old(#f.Reps) == #f.Defs - old(#f.Defs)
 //@   invariant[C08] srcPos == old(srcPos) + nRead
 //@   invariant (rfault ==> old(rfault)) && freshOrNil(out) && freshOrNil(sizes) && sameOrFresh(f.Defs) && sameOrFresh(f.Reps) && f.MaxLevels == old(f.MaxLevels) && f.repeated == old(f.repeated)
 
